@@ -20,6 +20,7 @@ Section Generic.
   Notation emitted_ops := (emitted_ops method_name).
   Notation group := (group tag_key).
   Notation group_step := (group_step tag_key).
+  Notation group_tags := (group_tags tag_key).
   Notation candidates := (candidates tag_key).
   Notation cv_candidates := (cv_candidates tag_key).
   Notation emitter_tags := (emitter_tags tag_key score).
@@ -91,7 +92,7 @@ Section Generic.
   Definition typed_op (st : strategy) (o : raw_op) : Prop :=
     r_node_ok o = true
     /\ (forall p, In p (r_params o) -> p = POk)
-    /\ (forall k ok, In (k, ok) (r_resp o) -> (exists s, k = KStr s) /\ ok = true)
+    /\ (forall k ok, In (k, ok) (r_resp o) -> ok = true)   (* any key: it is passed on as str(key) *)
     /\ r_tags o <> TBad
     /\ derive_id st o <> [].
   Definition typed_doc (st : strategy) (doc : list raw_op) : Prop :=
@@ -104,8 +105,8 @@ Section Generic.
     assert (P : forallb is_pok (r_params o) = true).
     { apply forallb_forall. intros p Hin. rewrite (Hp p Hin). reflexivity. }
     rewrite P. simpl.
-    assert (R : forallb (fun kb => is_kstr (fst kb) && snd kb) (r_resp o) = true).
-    { apply forallb_forall. intros [k ok] Hin. destruct (Hr k ok Hin) as [[s ->] ->]. reflexivity. }
+    assert (R : forallb (fun kb => snd kb) (r_resp o) = true).
+    { apply forallb_forall. intros [k ok] Hin. simpl. exact (Hr k ok Hin). }
     rewrite R. simpl.
     destruct (Tags.derive_id method_name clean_id st o) eqn:E; [contradiction Hi; reflexivity|]. simpl.
     destruct (r_tags o); try reflexivity. contradiction Ht; reflexivity.
@@ -118,10 +119,10 @@ Section Generic.
   Qed.
 
   Theorem guard_none_dropped : forall st doc,
-    guard_F07b method_name clean_id st doc = true -> parse st doc = map (mk_op st) (ops doc).
+    guard_F07f method_name clean_id st doc = true -> parse st doc = map (mk_op st) (ops doc).
   Proof. intros st doc H. unfold Tags.parse. rewrite (filter_all _ _ H). reflexivity. Qed.
 
-  Theorem typed_guard : forall st doc, typed_doc st doc -> guard_F07b method_name clean_id st doc = true.
+  Theorem typed_guard : forall st doc, typed_doc st doc -> guard_F07f method_name clean_id st doc = true.
   Proof. intros st doc H. apply forallb_forall. intros o Hin. apply typed_op_ok, H, Hin. Qed.
 
   Theorem none_dropped : forall st doc, typed_doc st doc ->
@@ -143,21 +144,30 @@ Section Generic.
   Qed.
 
   (* ---------------------------------------------------------------- de-dup *)
-  Lemma dedup_go_fix : forall l seen,
-    (forall o, In o l -> alookup (mn o) seen = None) ->
-    NoDup (map mn l) -> dedup_go seen l = l.
+  Lemma mem_str_false : forall x l, mem_str x l = false <-> ~ In x l.
   Proof.
-    induction l as [|o l IH]; intros seen Hs Hn; simpl; [reflexivity|].
-    rewrite (Hs o (or_introl eq_refl)). f_equal.
+    intros x l. split.
+    - intros H Hin. apply mem_str_In in Hin. congruence.
+    - intro H. destruct (mem_str x l) eqn:E; [apply mem_str_In in E; contradiction | reflexivity].
+  Qed.
+
+  Lemma dedup_go_fix : forall l used,
+    (forall o, In o l -> ~ In (mn o) used) ->
+    NoDup (map mn l) -> dedup_go used l = l.
+  Proof.
+    induction l as [|o l IH]; intros used Hs Hn; simpl; [reflexivity|].
+    assert (E : mem_str (method_name (o_id o)) used = false)
+      by (apply mem_str_false, Hs; left; reflexivity).
+    rewrite E. f_equal.
     inversion Hn as [|? ? Hni Hn']; subst. apply IH; [|exact Hn'].
-    intros o' Hin. rewrite alookup_aset_other.
-    - apply Hs. right. exact Hin.
-    - intro E. apply Hni. rewrite <- E. apply (in_map mn). exact Hin.
+    intros o' Hin [Heq|Hu].
+    - apply Hni. rewrite Heq. apply (in_map mn). exact Hin.
+    - apply (Hs o' (or_intror Hin)). exact Hu.
   Qed.
 
   (* a list whose method names are already unique is a fixpoint of the de-dup pass *)
   Theorem dedup_fix : forall l, NoDup (map mn l) -> dedup_ops l = l.
-  Proof. intros l H. apply dedup_go_fix; [reflexivity | exact H]. Qed.
+  Proof. intros l H. apply dedup_go_fix; [intros o _ [] | exact H]. Qed.
 
   Lemma nodupb_NoDup : forall l, nodupb l = true <-> NoDup l.
   Proof.
@@ -169,29 +179,63 @@ Section Generic.
         destruct (mem_str x l) eqn:E; [apply mem_str_In in E; contradiction | reflexivity].
   Qed.
 
-  Theorem emitted_unique : forall l, guard_F07a method_name l = true ->
+  Lemma find_free_spec : forall f used i n r,
+    find_free method_name f used i n = Some r ->
+    ~ In (method_name r) used /\ exists c, r = i ++ [c_us] ++ dec c.
+  Proof.
+    induction f as [|f IH]; intros used i n r H; simpl in H; [discriminate|].
+    destruct (mem_str (method_name (i ++ c_us :: dec n)) used) eqn:E.
+    - apply (IH _ _ _ _ H).
+    - inversion H; subst r. split; [apply mem_str_false, E | exists n; reflexivity].
+  Qed.
+
+  (* THE de-dup theorem (F07a fixed): whenever the suffix search succeeds (always, within the model
+     bound), the resulting method names are pairwise distinct — for every operation list *)
+  Lemma dedup_go_unique : forall l used, dedup_total_go method_name used l = true ->
+    NoDup (map mn (dedup_go used l)) /\ (forall x, In x (map mn (dedup_go used l)) -> ~ In x used).
+  Proof.
+    induction l as [|o l IH]; intros used H; [split; [constructor | intros x []]|].
+    cbn [Tags.dedup_go Tags.dedup_total_go] in *.
+    destruct (mem_str (method_name (o_id o)) used) eqn:E.
+    - destruct (find_free method_name (S (length used)) used (o_id o) 2) as [i|] eqn:F; [|discriminate].
+      destruct (find_free_spec _ _ _ _ _ F) as [Hfree _].
+      destruct (IH _ H) as [I1 I2]. simpl. split.
+      + constructor; [|exact I1]. intro Hin. apply (I2 _ Hin). left. reflexivity.
+      + intros x [<-|Hin]; [exact Hfree|]. intro Hu. apply (I2 _ Hin). right. exact Hu.
+    - destruct (IH _ H) as [I1 I2]. simpl. split.
+      + constructor; [|exact I1]. intro Hin. apply (I2 _ Hin). left. reflexivity.
+      + intros x [<-|Hin]; [apply mem_str_false, E|]. intro Hu. apply (I2 _ Hin). right. exact Hu.
+  Qed.
+
+  Theorem dedup_unique : forall l, dedup_total method_name l = true -> NoDup (map mn (dedup_ops l)).
+  Proof. intros l H. apply (dedup_go_unique l [] H). Qed.
+
+  (* idempotence: the second emit() pass of the direct path changes nothing *)
+  Theorem emitted_unique : forall l, dedup_total method_name l = true ->
     emitted_ops l = dedup_ops l /\ NoDup (map mn (emitted_ops l)).
   Proof.
-    intros l H. apply nodupb_NoDup in H. unfold Tags.emitted_ops.
-    rewrite (dedup_fix _ H). split; [reflexivity | exact H].
+    intros l H. pose proof (dedup_unique l H) as U. unfold Tags.emitted_ops.
+    rewrite (dedup_fix _ U). split; [reflexivity | exact U].
   Qed.
 
   (* shape of de-duplicated ids: unchanged, or the raw id followed by "_<counter>" *)
   Definition suffixed (o o' : op) : Prop :=
-    o' = o \/ exists c, o' = set_id o (o_id o ++ [c_us] ++ dec (c + 1)).
+    o' = o \/ exists c, o' = set_id o (o_id o ++ [c_us] ++ dec c).
 
-  Lemma dedup_go_shape : forall l seen, Forall2 suffixed l (dedup_go seen l).
+  Lemma dedup_go_shape : forall l used, Forall2 suffixed l (dedup_go used l).
   Proof.
-    induction l as [|o l IH]; intro seen; simpl; [constructor|].
-    destruct (alookup (method_name (o_id o)) seen) as [c|]; constructor; try apply IH.
-    - right. exists c. reflexivity.
-    - left. reflexivity.
+    induction l as [|o l IH]; intro used; [constructor|]. cbn [Tags.dedup_go].
+    destruct (mem_str (method_name (o_id o)) used).
+    - destruct (find_free method_name (S (length used)) used (o_id o) 2) as [i|] eqn:F; constructor; try apply IH.
+      + right. destruct (find_free_spec _ _ _ _ _ F) as [_ [c ->]]. exists c. reflexivity.
+      + left. reflexivity.
+    - constructor; [left; reflexivity | apply IH].
   Qed.
 
-  Lemma dedup_go_length : forall l seen, length (dedup_go seen l) = length l.
+  Lemma dedup_go_length : forall l used, length (dedup_go used l) = length l.
   Proof.
-    induction l as [|o l IH]; intro seen; simpl; [reflexivity|].
-    destruct (alookup (method_name (o_id o)) seen); simpl; rewrite IH; reflexivity.
+    intros l used. pose proof (dedup_go_shape l used) as S.
+    induction S as [|a b l1 l2 _ _ IH]; simpl; [reflexivity | rewrite IH; reflexivity].
   Qed.
 
   Lemma suffixed_tags : forall o o', suffixed o o' ->
@@ -228,7 +272,7 @@ Section Generic.
   Qed.
 
   Definition contrib (k : str) (o : op) : list op :=
-    map (fun _ => o) (filter (fun t => str_eqb k (tag_key t)) (tags_or_default o)).
+    map (fun _ => o) (filter (fun t => str_eqb k (tag_key t)) (group_tags o)).
 
   Lemma group_step_lookup : forall (o : op) (ts : list str) k (d : list (str * list op)),
     alookup_l k (fold_left (fun d t => aappend d (tag_key t) o) ts d)
@@ -277,20 +321,20 @@ Section Generic.
     - destruct (str_eqb (tag_key t) (tag_key t')); simpl; [lia | apply IH, Hin].
   Qed.
 
-  Lemma contrib_le1 : forall o k, nodupb (map tag_key (tags_or_default o)) = true ->
+  Lemma contrib_le1 : forall o k, nodupb (map tag_key (group_tags o)) = true ->
     contrib k o = [o] \/ contrib k o = [].
   Proof.
     intros o k H. apply nodupb_NoDup in H. pose proof (nodup_filter_le1 _ k H) as L.
-    unfold contrib. destruct (filter _ (tags_or_default o)) as [|a [|b r]]; simpl in *;
+    unfold contrib. destruct (filter _ (group_tags o)) as [|a [|b r]]; simpl in *;
       [right; reflexivity | left; reflexivity | lia].
   Qed.
 
-  Lemma contrib_in1 : forall o t, nodupb (map tag_key (tags_or_default o)) = true ->
-    In t (tags_or_default o) -> contrib (tag_key t) o = [o].
+  Lemma contrib_in1 : forall o t, nodupb (map tag_key (group_tags o)) = true ->
+    In t (group_tags o) -> contrib (tag_key t) o = [o].
   Proof.
     intros o t H Hin. destruct (contrib_le1 o (tag_key t) H) as [E|E]; [exact E|].
     pose proof (in_filter_ge1 _ t Hin) as G. unfold contrib in E.
-    destruct (filter _ (tags_or_default o)); simpl in *; [lia | discriminate].
+    destruct (filter _ (group_tags o)); simpl in *; [lia | discriminate].
   Qed.
 
   (* operations of a document are pairwise distinct as (METHOD, path) — keys of a JSON/YAML object *)
@@ -298,7 +342,7 @@ Section Generic.
     NoDup l /\ forall a b, In a l -> In b l -> same_op a b = true -> a = b.
 
   Lemma count_flat_map : forall o l k,
-    (forall o', In o' l -> nodupb (map tag_key (tags_or_default o')) = true) ->
+    (forall o', In o' l -> nodupb (map tag_key (group_tags o')) = true) ->
     (forall b, In b l -> same_op o b = true -> o = b) ->
     count_op o (flat_map (contrib k) l)
     = length (filter (fun o' => same_op o o' && negb (is_nil (contrib k o'))) l).
@@ -337,18 +381,46 @@ Section Generic.
       + apply (IH o Hn' Hin Hf). intros b Hb. apply Hu. right. exact Hb.
   Qed.
 
-  (* every operation appears exactly once in the group of each of its tags, provided no operation
-     carries two spellings of one tag *)
-  Theorem once_per_tag_partial : forall l,
-    distinct_ops l -> guard_F07c tag_key l = true -> once_per_tag tag_key l.
+  (* keys_of_op keeps the first spelling per key *)
+  Lemma dedup_keys_inv : forall ts seen,
+    NoDup (map tag_key (dedup_keys_go tag_key seen ts))
+    /\ (forall x, In x (map tag_key (dedup_keys_go tag_key seen ts)) -> ~ In x seen)
+    /\ (forall t, In t ts -> In (tag_key t) seen \/ In (tag_key t) (map tag_key (dedup_keys_go tag_key seen ts))).
   Proof.
-    intros l [Hn Hd] Hg o t Hin Ht.
-    assert (G : forall o', In o' l -> nodupb (map tag_key (tags_or_default o')) = true).
-    { apply forallb_forall. exact Hg. }
+    induction ts as [|t ts IH]; intro seen; simpl.
+    - split; [constructor | split; [intros x [] | intros t []]].
+    - destruct (mem_str (tag_key t) seen) eqn:E.
+      + destruct (IH seen) as (I1 & I2 & I3). split; [exact I1 | split; [exact I2|]].
+        intros t' [<-|Hin]; [left; apply mem_str_In, E | apply I3, Hin].
+      + destruct (IH (tag_key t :: seen)) as (I1 & I2 & I3). simpl. split; [|split].
+        * constructor; [|exact I1]. intro Hin. apply (I2 _ Hin). left. reflexivity.
+        * intros x [<-|Hin]; [apply mem_str_false, E|]. intro Hs. apply (I2 _ Hin). right. exact Hs.
+        * intros t' [<-|Hin]; [right; left; reflexivity|].
+          destruct (I3 _ Hin) as [[Heq|Hs]|Hr]; [right; left; exact Heq | left; exact Hs | right; right; exact Hr].
+  Qed.
+
+  Lemma group_tags_nodupb : forall o, nodupb (map tag_key (group_tags o)) = true.
+  Proof. intro o. apply nodupb_NoDup. apply (dedup_keys_inv (tags_or_default o) []). Qed.
+
+  Lemma group_tags_key_in : forall o t, In t (tags_or_default o) ->
+    exists t', In t' (group_tags o) /\ tag_key t' = tag_key t.
+  Proof.
+    intros o t Hin. destruct (dedup_keys_inv (tags_or_default o) []) as (_ & _ & I3).
+    destruct (I3 t Hin) as [[]|H]. apply in_map_iff in H. destruct H as [t' [E H]]. exists t'. split; assumption.
+  Qed.
+
+  (* F07c fixed: every operation appears exactly once in the group of each of its tags — for every
+     operation list with distinct (METHOD, path) pairs, however its tags are spelled *)
+  Theorem once_per_tag_full : forall l, distinct_ops l -> once_per_tag tag_key l.
+  Proof.
+    intros l [Hn Hd] o t Hin Ht.
+    assert (G : forall o', In o' l -> nodupb (map tag_key (group_tags o')) = true)
+      by (intros; apply group_tags_nodupb).
+    destruct (group_tags_key_in o t Ht) as [t' [Ht' Ek]].
     assert (C : count_op o (alookup_l (tag_key t) (group l)) = 1%nat).
     { rewrite group_lookup, count_flat_map; [|exact G | intros b Hb; apply Hd; assumption].
       apply (count_one _ l o Hn Hin).
-      - rewrite same_op_refl, (contrib_in1 o t (G o Hin) Ht). reflexivity.
+      - rewrite same_op_refl, <- Ek, (contrib_in1 o t' (G o Hin) Ht'). reflexivity.
       - intros b Hb E. apply andb_true_iff in E. destruct E as [E _]. apply Hd; assumption. }
     unfold alookup_l in C. destruct (alookup (tag_key t) (group l)) as [g|] eqn:E.
     - exists g. split; [reflexivity | exact C].
@@ -387,7 +459,7 @@ Section Generic.
     intro l. unfold Tags.group.
     assert (G : forall l d, NoDup (map fst d) -> NoDup (map fst (fold_left group_step l d))).
     { induction l0 as [|o l0 IH]; intros d Hd; simpl; [exact Hd|]. apply IH.
-      unfold Tags.group_step. generalize (tags_or_default o). intro ts. revert d Hd.
+      unfold Tags.group_step. generalize (group_tags o). intro ts. revert d Hd.
       induction ts as [|t ts IHt]; intros d Hd; simpl; [exact Hd|].
       apply IHt. apply aappend_keys, Hd. }
     apply G. constructor.
@@ -404,7 +476,7 @@ Section Generic.
   Qed.
 
   Lemma flat_map_contrib_filter : forall l k,
-    (forall o', In o' l -> nodupb (map tag_key (tags_or_default o')) = true) ->
+    (forall o', In o' l -> nodupb (map tag_key (group_tags o')) = true) ->
     flat_map (contrib k) l = filter (fun o => negb (is_nil (contrib k o))) l.
   Proof.
     induction l as [|a l IH]; intros k Hg; simpl; [reflexivity|].
@@ -412,35 +484,15 @@ Section Generic.
     destruct (contrib_le1 a k (Hg a (or_introl eq_refl))) as [E|E]; rewrite E; reflexivity.
   Qed.
 
-  (* if the emitted method names are globally unique and no operation repeats a tag, every client
-     has unique method names *)
-  Theorem names_unique_partial : forall e,
-    NoDup (map mn e) -> guard_F07c tag_key e = true -> names_unique method_name tag_key e.
+  (* if the emitted method names are globally unique, every client has unique method names *)
+  Theorem names_unique_full : forall e, NoDup (map mn e) -> names_unique method_name tag_key e.
   Proof.
-    intros e Hn Hg k g Hin.
-    assert (G : forall o', In o' e -> nodupb (map tag_key (tags_or_default o')) = true).
-    { apply forallb_forall. exact Hg. }
+    intros e Hn k g Hin.
+    assert (G : forall o', In o' e -> nodupb (map tag_key (group_tags o')) = true)
+      by (intros; apply group_tags_nodupb).
     pose proof (alookup_in _ _ _ (group_keys_nodup e) Hin) as L.
     pose proof (group_lookup e k) as GL. unfold alookup_l in GL. rewrite L in GL. subst g.
     rewrite (flat_map_contrib_filter e k G). apply NoDup_map_filter, Hn.
-  Qed.
-
-  Lemma dedup_go_tags : forall l seen, map o_tags (dedup_go seen l) = map o_tags l.
-  Proof.
-    induction l as [|o l IH]; intro seen; simpl; [reflexivity|].
-    destruct (alookup (method_name (o_id o)) seen); simpl; rewrite IH; reflexivity.
-  Qed.
-
-  Lemma guard_F07c_tags : forall a b, map o_tags a = map o_tags b -> guard_F07c tag_key a = guard_F07c tag_key b.
-  Proof.
-    induction a as [|x a IH]; destruct b as [|y b]; simpl; intro H; try discriminate; [reflexivity|].
-    inversion H as [[H1 H2]]. unfold tags_or_default. rewrite H1. f_equal. apply IH, H2.
-  Qed.
-
-  Theorem emitted_guard_F07c : forall l, guard_F07c tag_key (emitted_ops l) = guard_F07c tag_key l.
-  Proof.
-    intro l. apply guard_F07c_tags. unfold Tags.emitted_ops, Tags.dedup_ops.
-    rewrite !dedup_go_tags. reflexivity.
   Qed.
 
   (* ---------------------------------------------------------------- the guarded statement *)
@@ -449,10 +501,11 @@ Section Generic.
   Definition doc_distinct (doc : list raw_op) : Prop :=
     NoDup (map (fun r => (upper_str (r_method r), r_path r)) (ops doc)).
 
-  Lemma dedup_go_mp : forall l seen, map mp (dedup_go seen l) = map mp l.
+  Lemma dedup_go_mp : forall l used, map mp (dedup_go used l) = map mp l.
   Proof.
-    induction l as [|o l IH]; intro seen; simpl; [reflexivity|].
-    destruct (alookup (method_name (o_id o)) seen); simpl; rewrite IH; reflexivity.
+    intros l used. pose proof (dedup_go_shape l used) as S.
+    induction S as [|a b l1 l2 H _ IH]; simpl; [reflexivity|].
+    destruct (suffixed_tags _ _ H) as (_ & E1 & E2). unfold mp at 1 3. rewrite E1, E2, IH. reflexivity.
   Qed.
 
   Lemma NoDup_map_inj_in : forall {A B} (f : A -> B) l a b,
@@ -476,26 +529,24 @@ Section Generic.
 
   Theorem partial : forall st doc,
     doc_distinct doc ->
-    guard_F07b method_name clean_id st doc = true ->
-    guard_F07a method_name (parse st doc) = true ->
-    guard_F07c tag_key (parse st doc) = true ->
+    guard_F07f method_name clean_id st doc = true ->
+    dedup_total method_name (parse st doc) = true ->
     let e := emitted_ops (parse st doc) in
     length e = length (ops doc)
     /\ once_per_tag tag_key e
     /\ names_unique method_name tag_key e
     /\ client_tags e = Some (emitter_tags e).
   Proof.
-    intros st doc Hdd Hb Ha Hc e.
+    intros st doc Hdd Hb Ha e.
     destruct (emitted_unique _ Ha) as [E1 E2].
-    assert (Hc' : guard_F07c tag_key e = true) by (unfold e; rewrite emitted_guard_F07c; exact Hc).
     assert (Hd : distinct_ops e).
     { apply distinct_from_mp. unfold e, Tags.emitted_ops, Tags.dedup_ops. rewrite !dedup_go_mp.
       rewrite (guard_none_dropped st doc Hb), map_map. exact Hdd. }
     repeat split.
     - unfold e. rewrite E1. unfold Tags.dedup_ops. rewrite dedup_go_length.
       rewrite (guard_none_dropped st doc Hb). apply map_length.
-    - apply once_per_tag_partial; assumption.
-    - apply names_unique_partial; assumption.
+    - apply once_per_tag_full; assumption.
+    - apply names_unique_full; assumption.
     - apply clients_mirror.
   Qed.
 End Generic.
@@ -522,39 +573,41 @@ Definition ids_F07a1 : list op := [mkid s_foo; mkid s_foo; mkid s_foo_2].
 (* F07a — the two passes of the direct path: foo, foo, foo_2, foo_2_2 -> foo, foo_2, foo_2_2, foo_2_2 *)
 Definition ids_F07a : list op := [mkid s_foo; mkid s_foo; mkid s_foo_2; mkid s_foo_2_2].
 
-Lemma not_nodup_adjacent : forall (x : str) a l, ~ NoDup (a ++ x :: x :: l).
+(* F07a FIXED — regression: the old witnesses now end with pairwise distinct method names, and the
+   pass is idempotent on them *)
+Theorem fixed_F07a :
+  map o_id (dedup_ops idf ids_F07a1) = [s_foo; s_foo_2; s_foo_2_2]
+  /\ dedup_ops idf (dedup_ops idf ids_F07a1) = dedup_ops idf ids_F07a1
+  /\ map o_id (emitted_ops idf ids_F07a) = [s_foo; s_foo_2; s_foo_2_2; s_foo_2_2 ++ [95;50]]
+  /\ dedup_total idf ids_F07a = true
+  /\ NoDup (map (fun o => idf (o_id o)) (emitted_ops idf ids_F07a)).
 Proof.
-  intros x a l H. apply NoDup_remove_2 in H. apply H. apply in_or_app. right. left. reflexivity.
+  repeat split; try (vm_compute; reflexivity).
+  apply (emitted_unique idf). vm_compute. reflexivity.
 Qed.
 
-Theorem refuted_F07a_single :
-  guard_F07a idf ids_F07a1 = false /\ ~ NoDup (map (fun o => idf (o_id o)) (dedup_ops idf ids_F07a1)).
-Proof. split; [vm_compute; reflexivity|]. vm_compute. apply (not_nodup_adjacent _ [_]). Qed.
-
-Theorem refuted_F07a :
-  guard_F07a idf ids_F07a = false /\ ~ names_unique idf idf (emitted_ops idf ids_F07a).
-Proof.
-  split; [vm_compute; reflexivity|]. intro H.
-  specialize (H s_default (emitted_ops idf ids_F07a)).
-  assert (X : In (s_default, emitted_ops idf ids_F07a) (group idf (emitted_ops idf ids_F07a))).
-  { vm_compute. left. reflexivity. }
-  apply H in X. vm_compute in X. revert X. apply (not_nodup_adjacent _ [_; _]).
-Qed.
-
-Theorem dedup_not_idempotent : dedup_ops idf (dedup_ops idf ids_F07a1) <> dedup_ops idf ids_F07a1.
-Proof. vm_compute. discriminate. Qed.
-
-(* F07b — YAML `200:` *)
+(* F07b FIXED — regression: the YAML `200:` document keeps both operations *)
 Definition doc_F07b : list raw_op :=
   [ {| r_path := s_pa; r_method := [103;101;116]; r_node_ok := true; r_opid := Some s_a; r_tags := TAbsent;
        r_resp := [(KInt 200, true)]; r_params := [] |};
     {| r_path := s_pa; r_method := [112;111;115;116]; r_node_ok := true; r_opid := Some s_b; r_tags := TAbsent;
        r_resp := [(KStr s_default, true)]; r_params := [] |} ].
+Theorem fixed_F07b :
+  guard_F07f idf no_clean SOpId doc_F07b = true
+  /\ length (parse idf no_clean SOpId doc_F07b) = length (ops doc_F07b)
+  /\ length (ops doc_F07b) = 2%nat.
+Proof. repeat split; vm_compute; reflexivity. Qed.
 
-Theorem refuted_F07b :
-  guard_F07b idf no_clean SOpId doc_F07b = false
-  /\ ~ visible_failure idf idf idf idf no_clean no_score (fun _ => true) SOpId doc_F07b
-  /\ length (parse idf no_clean SOpId doc_F07b) = 1%nat /\ length (ops doc_F07b) = 2%nat.
+(* F07f — the blanket except: a parameter without name makes POST /a vanish, generation succeeds *)
+Definition doc_F07f : list raw_op :=
+  [ {| r_path := s_pa; r_method := [103;101;116]; r_node_ok := true; r_opid := Some s_a; r_tags := TAbsent;
+       r_resp := [(KStr s_default, true)]; r_params := [] |};
+    {| r_path := s_pa; r_method := [112;111;115;116]; r_node_ok := true; r_opid := Some s_b; r_tags := TAbsent;
+       r_resp := [(KStr s_default, true)]; r_params := [PNoName] |} ].
+Theorem refuted_F07f :
+  guard_F07f idf no_clean SOpId doc_F07f = false
+  /\ ~ visible_failure idf idf idf idf no_clean no_score (fun _ => true) SOpId doc_F07f
+  /\ length (parse idf no_clean SOpId doc_F07f) = 1%nat /\ length (ops doc_F07f) = 2%nat.
 Proof.
   split; [vm_compute; reflexivity|]. split; [|split; vm_compute; reflexivity].
   intro H. apply visible_failure_iff in H. vm_compute in H. discriminate.
@@ -566,12 +619,16 @@ Definition s_users : str := [117;115;101;114;115].
 Definition key_F07c : str -> str := tbl_fun [(s_Users, s_users)].
 Definition op_F07c : op := {| o_id := s_a; o_method := s_GET; o_path := s_pa; o_tags := [s_Users; s_users] |}.
 
-Theorem refuted_F07c :
-  guard_F07c key_F07c [op_F07c] = false /\ ~ once_per_tag key_F07c [op_F07c].
+(* F07c FIXED — regression: the operation is once in the users group *)
+Theorem fixed_F07c :
+  group key_F07c [op_F07c] = [(s_users, [op_F07c])]
+  /\ candidates key_F07c [op_F07c] = [(s_users, [s_Users; s_users])]
+  /\ once_per_tag key_F07c [op_F07c].
 Proof.
-  split; [vm_compute; reflexivity|]. intro H.
-  destruct (H op_F07c s_Users (or_introl eq_refl) (or_introl eq_refl)) as [g [E C]].
-  vm_compute in E. inversion E; subst g. vm_compute in C. discriminate.
+  split; [vm_compute; reflexivity|]. split; [vm_compute; reflexivity|].
+  apply once_per_tag_full. split.
+  - constructor; [intros [] | constructor].
+  - intros a b [<-|[]] [<-|[]] _. reflexivity.
 Qed.
 
 (* F07d — tag "-" *)
@@ -615,9 +672,8 @@ Definition doc_ok : list raw_op :=
 
 Theorem guard_nonvacuous :
   doc_distinct doc_ok
-  /\ guard_F07b idf no_clean SOpId doc_ok = true
-  /\ guard_F07a idf (parse idf no_clean SOpId doc_ok) = true
-  /\ guard_F07c key_F07c (parse idf no_clean SOpId doc_ok) = true
+  /\ guard_F07f idf no_clean SOpId doc_ok = true
+  /\ dedup_total idf (parse idf no_clean SOpId doc_ok) = true
   /\ length (ops doc_ok) = 2%nat
   /\ map o_id (emitted_ops idf (parse idf no_clean SOpId doc_ok)) = [s_a; s_a ++ [95;50]].
 Proof.
